@@ -11,6 +11,9 @@ LEAN_TARGETS = ['BertE.Props.C06']
 ASSUMPTIONS = [
     'the statuses are those the git host returns for the integration tips at evaluation time '
     '(the status table is keyed by commit; histories where tips move are covered by the system-level checks)',
+    'with a concurrent writer "the tip" of an integration branch is the tip at the last operation of the job that '
+    'observed the branch (fetch, successful push of it, host answer carrying the pull request) before the push with '
+    'which the pull request entered; a commit pushed later cannot be known to the job (harness/c06_race.py)',
     'there is at least one integration branch (create_integration_branches always yields the first target)',
     'end-to-end theorems (C06_e2e_*): facts about commit contents that the ref-level model does not carry are inputs '
     'of the composed model (Model/Eval.lean `Facts`: commit-diff count, cascade outcome and target versions, '
@@ -23,6 +26,8 @@ TRUSTED = [
     'modelled, not verified: the git host get_build_status call (a function from commit and key to status)',
     'hand-written composed model lean/BertE/Model/Eval.lean, tied to the real BertE + mock host + real git by '
     'harness/evalsys.py (stage, job status, notify_user classes and refs of every pull-request evaluation)',
+    'harness/c06_race.py (wrappers around bert_e.lib.git.cmd and the mock host API that define the operations of a job, '
+    'their classification into local / remote-observing ones, the third party and the dated-tip oracle)',
 ]
 
 STATUSES = ['SUCCESSFUL', 'INPROGRESS', 'NOTSTARTED', 'STOPPED', 'FAILED']
@@ -147,11 +152,16 @@ def correspondence(ctx):
     # end-to-end phase: the gate inside whole evaluations of the real system (composed model, stale statuses)
     from . import evalsys
     evalsys.phase(ctx, res, PID)
+    # race phase: a third party pushes on the source / w/ branches at every interleaving point of the evaluating job
+    from . import c06_race
+    c06_race.phase(ctx, res)
     return res
 
 
 def replay(ctx, payload):
-    from . import evalsys
+    from . import c06_race, evalsys
+    if c06_race.is_mine(payload):
+        return c06_race.replay(ctx, payload)
     if evalsys.is_mine(payload):
         return evalsys.replay(ctx, payload)
     f = payload['failure']['input']
